@@ -68,12 +68,24 @@ func collectBoxes(b mp4.Box, path string, f func(b mp4.Box, path string)) {
 // "structure reachable by decoding", which they are).
 func buildPool(corpusDir string, withLayouts bool) ([]poolObj, error) {
 	var pool []poolObj
+	type namedData struct {
+		name string
+		data []byte
+	}
+	var inputs []namedData
 	for _, path := range corpusFiles(corpusDir) {
 		data, err := ioutil.ReadFile(path)
 		if err != nil {
 			continue
 		}
-		name := filepath.Base(path)
+		inputs = append(inputs, namedData{filepath.Base(path), data})
+	}
+	for _, m := range materialisedFiles() {
+		inputs = append(inputs, namedData{m.name, m.data})
+	}
+	for _, in := range inputs {
+		data := in.data
+		name := in.name
 		f, err := safeDecodeFile(data)
 		if err != nil {
 			continue // not a decodable file (e.g. raw fragments of boxes): skipped
@@ -181,6 +193,39 @@ func findByPath(top mp4.Box, prefix, want string) (sizedObj, error) {
 		return nil, fmt.Errorf("path %s not found", want)
 	}
 	return found, nil
+}
+
+// materialisedFiles: files written by the harness's own box writer with shapes the corpus lacks
+// (64-bit mdat headers, mdat before moov, several tracks, extra top-level boxes).
+func materialisedFiles() []struct {
+	name string
+	data []byte
+} {
+	type nd = struct {
+		name string
+		data []byte
+	}
+	var out []nd
+	stbl := func(n int) [][]byte {
+		return [][]byte{mStsd(), mStts([]runEntry{{1, 1}}), mStsc([]stscEntry{{1, 1, 1}}), mStsz(0, []int{n})}
+	}
+	for _, large := range []bool{false, true} {
+		f, _ := buildProgFile(stbl(7), []int{0}, false, mkPayload(7), nil, 1000, 1, large)
+		out = append(out, nd{fmt.Sprintf("matter:prog(large=%v)", large), f})
+		ini := mFragInit([]int64{1}, 1000)
+		fr1 := mSimpleFragment(1, 1, 0, []mSample{{10, 4, 0x02000000, 0}, {10, 5, 0x01010000, 2}}, mkPayload(9), large)
+		fr2 := mSimpleFragment(2, 1, 20, []mSample{{10, 3, 0x01010000, 0}}, mkPayload(3), large)
+		out = append(out, nd{fmt.Sprintf("matter:frag(large=%v)", large), cat(ini, mStyp("msdh", 0, "msdh"), fr1, fr2)})
+		out = append(out, nd{fmt.Sprintf("matter:segment-only(large=%v)", large), cat(mStyp("msdh", 0, "msdh"), fr1, fr2)})
+		ftyp := mFtyp("isom", 0x200, "isom")
+		hdr := 8
+		if large {
+			hdr = 16
+		}
+		trak := mTrak(1, 1000, 1, true, nil, append(stbl(7), mStco([]int64{int64(len(ftyp) + hdr)}))...)
+		out = append(out, nd{fmt.Sprintf("matter:mdat-first(large=%v)", large), cat(ftyp, mMdat(mkPayload(7), large), mkBox("moov", mMvhd(1000, 1, 2), trak), mkBox("free", zeros(3)))})
+	}
+	return out
 }
 
 // apiBuiltObjects: fragments, media segments and init segments built through the public constructors.
